@@ -9,7 +9,8 @@
 From Coq Require Import Lia.
 From RM Require Import C08.Model C08.Proofs C11.Model C11.Proofs1 C11.Proofs2 C11.Proofs3 C11.Proofs4 C11.Proofs5 C11.Proofs6 C11.Proofs7.
 From RM Require C09.Model C09.Grammar C11.Text C11.Text2.
-From RM Require Import C11.Proofs8.
+From RM Require Import C11.Proofs8 C11.Proofs9.
+From RM Require Gen.C11Sym C11.Tie.
 Open Scope Z_scope.
 
 (* Parsing and symbolication never panic (overflow in `address + module.base_address()`,
@@ -280,6 +281,86 @@ Theorem c11_table_interface : forall p rf st mbase instr,
 Proof. exact table_interface. Qed.
 Print Assumptions c11_table_interface.
 
+(* ---- round 4 ---- *)
+
+(* Tie to the source.  translate/c11_symbolize.py re-reads SymbolFile::fill_symbol, find_nearest_public,
+   Function::{memory_range, get_outermost_sourceloc, get_innermost_sourceloc, get_inlinee_at_depth},
+   finish_item, the field order of Inlinee / PublicSymbol, Symbolizer::fill_symbol / get_symbol_at_address and
+   fill_source_line_info on every run; the statement structure must match its templates (else it aborts) and
+   the comparison operators, operands, constants, STACK WIN table order, lookup keys, start depth and stopping
+   arm of the depth loop, .rev() / .reverse() are translated into the functions of Gen/C11Sym.v.  Those are the
+   model all theorems of this file speak about. *)
+Theorem c11_source_tie :
+  (forall p st mbase instr, C11Sym.g_fill_symbol p st mbase instr = fill_symbol p st mbase instr) /\
+  (forall inls depth addr, C11Sym.g_get_inlinee_at_depth inls depth addr = get_inlinee_at_depth inls depth addr) /\
+  (forall f addr, C11Sym.g_get_outermost_sourceloc f addr = get_outermost_sourceloc f addr) /\
+  (forall p fuel inls addr depth, C11Sym.g_inline_loop p fuel inls addr depth = inline_loop p fuel inls addr depth) /\
+  C11Sym.g_depth_start = 1 /\
+  (forall pubs addr, C11Sym.g_find_nearest_public pubs addr = find_nearest_public pubs addr) /\
+  (forall funcs addr, C11Sym.g_prev_func funcs addr = prev_func funcs addr) /\
+  (forall st f addr, C11Sym.g_param_size st f addr = param_size st f addr) /\
+  (forall base size, C11Sym.g_func_range base size = mk_range base size) /\
+  (forall ls, C11Sym.g_line_entries ls = line_entries ls) /\
+  (forall l, filter C11Sym.g_inl_keep l = keep_inls true l) /\
+  (forall e, C11Sym.g_inl_key e = inl_key e) /\ (forall q, C11Sym.g_pub_key q = pub_key q) /\
+  (forall a, C11Sym.g_gsaa_instr a = a) /\ C11Sym.g_gsaa_base = 0 /\ (forall i, C11Sym.g_module_key i = i) /\
+  (forall o, C11Sym.g_frame_inlines (o_inl o) = frame_inlines o).
+Proof. exact Tie.source_tie. Qed.
+Print Assumptions c11_source_tie.
+
+(* Cost of the inline-depth enumeration.  [fill_symbol_n] is fill_symbol with a counter of
+   get_inlinee_at_depth calls (dropping the counter gives fill_symbol back: 4th conjunct) and [extra] more
+   fuel than the model gives the loop.  For every file, address, module base and both profiles the count is
+   the same for every [extra] (the loop stops by itself: `None => break`), it is 0 when no FUNC of the table
+   covers the address and otherwise 1 + the length of the inline chain found, at most the number of INLINE
+   ranges of the reported FUNC + 1.  (Each lookup is one binary search.)  A loop bound read from the file
+   (seeded C03-3: `1..=max_depth`) cannot satisfy this; c11_symbolize.py pins `for depth in 1..` / `None => break`. *)
+Theorem c11_inline_lookups_bounded : forall p rf mbase instr,
+  wf_file rf -> 0 <= mbase -> instr < two64 ->
+  exists st o n, build_symtab rf = Ret st /\ symbolize p rf mbase instr = Ret o /\
+    (forall extra, fill_symbol_n p extra st mbase instr = Ret (o, n)) /\
+    (forall extra, fill_symbol p st mbase instr = do x <- fill_symbol_n p extra st mbase instr; Ret (fst x)) /\
+    ((instr < mbase \/ rm_get (st_funcs st) (instr - mbase) = None) -> n = 0%nat) /\
+    (forall f, mbase <= instr -> rm_get (st_funcs st) (instr - mbase) = Some f ->
+       n = S (length (inl_chain f (instr - mbase))) /\
+       exists fr, In fr (rf_funcs rf) /\ func_covers fr (instr - mbase) = true /\ f = fin_func true fr /\
+                  (n <= length (fr_inls fr) + 1)%nat).
+Proof. exact inline_lookups_bounded. Qed.
+Print Assumptions c11_inline_lookups_bounded.
+
+(* Completeness for ALL files (overlapping or not): a FUNC record that covers the address and whose range
+   intersects the range of no other FUNC record of the file is the function reported — the overlap
+   resolution of the table builder cannot lose it and no PUBLIC can win over it. *)
+Theorem c11_isolated_func_found : forall p rf mbase instr l1 fr l2,
+  wf_file rf -> 0 <= mbase -> mbase <= instr < two64 ->
+  rf_funcs rf = l1 ++ fr :: l2 -> func_covers fr (instr - mbase) = true -> func_isolated fr (l1 ++ l2) ->
+  exists st o, build_symtab rf = Ret st /\ symbolize p rf mbase instr = Ret o /\
+    rm_get (st_funcs st) (instr - mbase) = Some (fin_func true fr) /\
+    o = fill_func st mbase (instr - mbase) (fin_func true fr) /\
+    o_func o = Some (fr_name fr, fr_addr fr + mbase, param_size st (fin_func true fr) (instr - mbase)).
+Proof. exact isolated_func_found. Qed.
+Print Assumptions c11_isolated_func_found.
+
+(* Module list, completeness: a module (any base < 2^64, any size, also one ending at 2^64-1) that contains
+   the instruction and intersects no other module of the list (modules whose range is empty or not
+   representable occupy nothing) is the module the frame is attributed to, and the frame is
+   SymbolFile::fill_symbol at that module's base with the inlines reversed.  With c11_module_lookup_compose
+   (soundness for every list, overlapping or not) this is the multi-module layer. *)
+Theorem c11_module_isolated_found : forall p (m1 : list module) b sz ost (m2 : list module) instr r,
+  Forall wf_module (m1 ++ (b, sz, ost) :: m2) ->
+  mk_range b sz = Some r -> contains r instr = true ->
+  (forall m r', In m (m1 ++ m2) -> mk_range (fst (fst m)) (snd (fst m)) = Some r' -> intersects r r' = false) ->
+  exists tbl, mod_table (m1 ++ (b, sz, ost) :: m2) = Ret tbl /\
+    rm_get tbl instr = Some (Z.of_nat (length m1)) /\ b <= instr /\
+    frame_of p tbl (m1 ++ (b, sz, ost) :: m2) instr =
+      match ost with
+      | Some st => do o <- fill_symbol p st b instr;
+                   Ret (Some (Z.of_nat (length m1), mk_out (o_func o) (o_src o) (rev (o_inl o))))
+      | None => Ret (Some (Z.of_nat (length m1), empty_out))
+      end.
+Proof. exact isolated_module_found. Qed.
+Print Assumptions c11_module_isolated_found.
+
 Ltac wf_tac :=
   unfold wf_file, wf_fraw, wf_line, wf_inl, wf_pub, wf_win, u64, u32, two64, two32;
   repeat (first [apply Forall_nil | apply Forall_cons | split]); cbn; try lia.
@@ -391,4 +472,31 @@ Proof.
   - intros w sz. reflexivity.
   - cbn. intros a b (w0 & [] & _).
   - cbn. intros a b (w0 & [] & _).
+Qed.
+
+(* round 4: three lookups (depths 0, 1 and the failing depth 2) at address 21 of nv_file2, with any extra fuel;
+   the first FUNC of nv_file2 is isolated; a module ending at 2^64-1 between two others is found *)
+Example c11_nonvacuous_lookups :
+  (do st <- build_symtab nv_file2; fill_symbol_n Debug 7 st 4096 (4096 + 21)) =
+    Ret (mk_out (Some (5, 4112, 12)) (Some (7, 70, 4112)) [(21, Some 7, Some 71); (22, Some 7, Some 10)], 3%nat) /\
+  (do st <- build_symtab nv_file2; fill_symbol_n Debug 0 st 4096 (4096 + 45)) = Ret (mk_out (Some (5, 4112, 4)) (Some (7, 11, 4128)) [], 1%nat) /\
+  (do st <- build_symtab nv_file2; fill_symbol_n Debug 0 st 4096 (4096 + 95)) = Ret (mk_out (Some (9, 4186, 4)) None [], 0%nat).
+Proof. repeat split; vm_compute; reflexivity. Qed.
+Example c11_nonvacuous_isolated :
+  exists fr l2, rf_funcs nv_file2 = [] ++ fr :: l2 /\ func_covers fr 21 = true /\ func_isolated fr ([] ++ l2).
+Proof.
+  eexists. eexists. split; [reflexivity|]. split; [vm_compute; reflexivity|].
+  intros fr' r r' Hin Hr Hr'. cbn in Hin. destruct Hin as [<-|[<-|[]]]; vm_compute in Hr, Hr'; try discriminate.
+  inversion Hr; inversion Hr'; subst. reflexivity.
+Qed.
+Example c11_nonvacuous_module_top :
+  let mods : list module := [(0, 4096, None); (18446744073709551515, 100, None); (18446744073709551000, 100, None)] in
+  Forall wf_module mods /\
+  (exists tbl, mod_table mods = Ret tbl /\ rm_get tbl 18446744073709551614 = Some 1 /\
+     frame_of Debug tbl mods 18446744073709551614 = Ret (Some (1, empty_out)) /\
+     rm_get tbl 18446744073709551615 = None).
+Proof.
+  split.
+  - unfold wf_module, u64, two64. repeat (first [apply Forall_nil | apply Forall_cons | split]); cbn; lia.
+  - eexists. split; [vm_compute; reflexivity|]. repeat split; vm_compute; reflexivity.
 Qed.
